@@ -13,10 +13,11 @@ CHECKS = {
          "AuthFlow.tla (handler ladder at store-call granularity, attacker-chosen requests, fault budget) is model-checked exhaustively for OkJustified/FaultNeverOk; every "
          "single (thorough: pair of) fault position on every path is exported by TLC and replayed through the real ExtAuthZFilter.Check on both stores (incl. single Redis-command faults), "
          "and every recorded trace is validated by TLC against AuthMonitor.tla whose C01 monitors judge each OK verdict from the check's own store reads, IdP exchanges and faults "
-         "(a Redis command that failed counts as a store failure whether or not the store reported it; two instances of the service over one Redis are included).",
+         "(a Redis command that failed counts as a store failure whether or not the store reported it; two instances of the service over one Redis are included; a sample of the scenarios also travels over a real gRPC connection through server.Server and its interceptors, "
+         "and under request envelopes - other methods, XHR, proxy headers, plain http - with the verdict classified by its status code alone, as the proxy does).",
          "TLC exhaustive model checking of AuthFlow + TLC-exported fault/attacker scenarios replayed into real Check + TLC trace validation (AuthMonitor)"),
  "C02": ("model_checking", "6 C02",
-         "The adversarial token grammar (20 classes x login/refresh x configs, several rendered variants per class) is enumerated by TLC (Families.tla); the simulated IdP renders each class, "
+         "The adversarial token grammar (21 classes, one grafted on a token the service accepted earlier, x login/refresh x configs, over static, fetched and discovered key sets with the key provider object handed to the filter as cmd/main.go does, several rendered variants per class) is enumerated by TLC (Families.tla); the simulated IdP renders each class, "
          "knows its ground truth, and TLC validates on the recorded trace that every stored token came from the exchange of that check and is valid under ground truth, and that the upstream headers equal the bound tokens. "
          "A forged refresh answer racing with a second check on the same session is explored at gate granularity. Fetched key sets: KeySource.tla (per-URI cache, background refresh) is model-checked, its behaviours are replayed in real time into the real JWKS provider and "
          "KeySourceTrace.tla explains every lookup by placing the unlogged refresh steps (a lookup returns only key sets its own URI served, never an older generation, the current one after the interval).",
@@ -25,7 +26,7 @@ CHECKS = {
          "TLC enumerates compliant IdP answer shapes x configurations x requested URLs (Families!C03Space); a simulated browser follows the redirects through the real Check; TLC validates OnePass/NoRelogin on the trace.",
          "TLC-enumerated compliant-login product + redirect-following browser against real Check + TLC trace validation"),
  "C04": ("model_checking", "6 C04",
-         "AuthFlow is model-checked for ExchangeBound/TokensFromOwnLogin with attacker-chosen cookie/state/code; callback query shapes x replays (Families!C04Space) and TLC -simulate attacker walks are replayed; "
+         "AuthFlow is model-checked for ExchangeBound/TokensFromOwnLogin with attacker-chosen cookie/state/code; callback query shapes x replays (Families!C04Space), every fault position of a callback followed by its replay, and TLC -simulate attacker walks are replayed; "
          "the strict simulated token endpoint logs exactly what it was sent and TLC judges every exchange against the ghost login taken from the authorize redirect of the presented session.",
          "TLC model checking of AuthFlow + TLC-generated attacker/callback scenarios + TLC trace validation of every token-endpoint request"),
  "C05": ("model_checking", "6 C05",
@@ -40,7 +41,7 @@ CHECKS = {
          "TLA+ reference evaluator; TLC bounded-exhaustive enumeration; real Check judged by TLC"),
  "C09": ("model_checking", "6 C09",
          "TLC model-checks AuthFlow: with the code's design choice (writes create absent sessions) LoggedOutStaysDead is violated, with conditional writes it holds. Every interleaving of a logout with one (thorough: two) concurrent checks, at store/IdP/key-lookup gates, "
-         "is exported and replayed with gates on both stores, plus faulty logouts (incl. single Redis-command faults); TLC validates LogoutFinal/LoggedOutStaysDead on the traces. The reproduced race is a known finding.",
+         "is exported and replayed with gates on both stores, plus faulty logouts (incl. single Redis-command faults); TLC validates LogoutFinal/LoggedOutStaysDead on the traces. The reproduced race is a known finding. At store level the in-memory store's own clean-up runs concurrently with removals and reads; RemovedTrace.tla judges that what was removed with no write in flight stays removed.",
          "TLC exhaustive interleaving enumeration (AuthFlowScn) replayed with gates into real Check + TLC trace validation"),
  "C10": ("model_checking", "6 C10",
          "SessionMap.tla is model-checked (NeverHonouredLate, CreatedFixed); one operation sequence per transition of its state graph is run against the real memory and Redis stores under a virtual clock for several (absolute, idle) pairs and validated by StoreTrace.tla; "
@@ -51,7 +52,7 @@ CHECKS = {
          "TLC-enumerated refresh histories replayed into real Check + TLC trace validation (RefreshUsesLatest, RefreshMerge)"),
  "C12": ("model_checking", "6 C12",
          "Both stores are validated operation by operation (result and projected real state) against SessionMap via StoreTrace.tla on TLC-generated transition-covering sequences and random long histories routed over two Redis-backed instances, with single failing Redis commands; "
-         "concurrent memory-store histories are searched for a linearization (LinTrace.tla), pairs of Redis operations at command granularity (RedisStore.tla); the reference's invariant is shown inductive by Apalache (SessionMapInd.tla, thorough tier).",
+         "concurrent memory-store histories - also over sessions that have timed out and with the store's clean-up running, then in a race-detector build of the harness whose reports inside a store operation count as a non-atomic operation - are searched for a linearization (LinTrace.tla), pairs of Redis operations at command granularity (RedisStore.tla); the reference's invariant is shown inductive by Apalache (SessionMapInd.tla, thorough tier).",
          "TLC state-graph-covering test generation from SessionMap + strict TLC trace validation of store operations"),
  "C13": ("model_checking", "6 C13",
          "Configurations with reserved/non-ASCII characters x URLs (TLC-enumerated); Location values are parsed with net/url, mapped to symbols, and TLC judges endpoint, own query, exact parameter map, S256 of the stored verifier, the restored URL and no-cache headers.",
